@@ -504,8 +504,9 @@ fn c15_specs(thorough: bool) -> Vec<(String, ListenSpec)> {
             // one "tick" is wait_time: 100 ms with a flag, idle_timeout s without; the idle deadline is `d` ticks
             let d: usize = if flag { (idle * 10) as usize } else { 1 };
             // scripted instants, in ticks: early, mid-period, just before the deadline, across the deadline(s)
-            let arrivals: Vec<usize> = if idle == 0 { vec![0, 2] } else if flag { vec![0, d / 2, d - 1] } else { vec![0] };
-            let closes: Vec<usize> = if idle == 0 { vec![0, 2] } else if flag { vec![0, d + 2] } else { vec![0, 1, 3] };
+            let arrivals: Vec<usize> = if idle == 0 && !flag { vec![0] } else if idle == 0 { vec![0, 2] } else if flag { vec![0, d / 2, d - 1] } else { vec![0] };
+            // (without a flag and without an idle timeout the loop blocks in accept: no ticks, so no scripted delays)
+            let closes: Vec<usize> = if idle == 0 && !flag { vec![0] } else if idle == 0 { vec![0, 2] } else if flag { vec![0, d + 2] } else { vec![0, 1, 3] };
             let flags: Vec<Option<usize>> = if !flag { vec![None] } else if idle == 0 { vec![Some(0), Some(1), Some(3)] } else { vec![None, Some(0), Some(d / 2), Some(d + 3)] };
             for (pi, pm) in &pools {
                 for fl in &flags {
